@@ -37,9 +37,6 @@ Section Corollaries.
   Variable dotsem : operand -> list (string * option val) -> dval -> comp dval.
   Variable callsem : val -> list dval -> comp dval.
   Variable awaitsem : val -> comp val.
-  Hypothesis msem_nc : forall m tf r ds, leaves not_clo (msem m tf r ds).
-  Hypothesis dotsem_nc : forall o sn r, leaves not_clo (dotsem o sn r).
-  Hypothesis callsem_nc : forall f ds, leaves not_clo (callsem f ds).
 
   Notation steps := (steps msem dotsem callsem awaitsem).
   Definition init_state (sp : sprog) : state := map (fun _ => None) (sp_trees sp).
@@ -59,7 +56,7 @@ Section Corollaries.
     den (user_names inp) msem dotsem callsem awaitsem e empty_env = steps sp (max_depth sp) 0 (init_state sp).
   Proof.
     intros Ha Hh Hwf Hg Hp. destruct (prepare_fields cfg inp sp Hp) as (Hc & Hhs & _).
-    rewrite (gen_refines_spec msem dotsem callsem awaitsem msem_nc dotsem_nc callsem_nc cfg inp e sp Hwf Hg Hp).
+    rewrite (gen_refines_spec msem dotsem callsem awaitsem cfg inp e sp Hwf Hg Hp).
     apply spec_no_handler_sync; congruence.
   Qed.
 
